@@ -26,7 +26,7 @@ def main():
 
     width = os.environ.get("DOCTRANS_LINE_LENGTH")
     rng = random.Random(seed)
-    g = IRGen(rng, knobs(p_long_doc=0.35, p_long_summary=0.35, p_doc_states_default=0.4, p_hyphen_tokens=0.5, p_multiline_doc=0.08))
+    g = IRGen(rng, knobs(p_long_doc=0.35, p_long_summary=0.35, p_doc_states_default=0.4, p_hyphen_tokens=0.5, p_multiline_doc=0.08, p_literal_with_spaces=0.5))
     ga = IRGen(rng, knobs(p_long_doc=0.35, p_long_summary=0.35, argparse_domain=True, p_doc_states_default=0.4, p_hyphen_tokens=0.5))
     # descriptions in which nothing needs wrapping at the usual widths (short prose, every parameter typed), a good part
     # of them with prose that itself contains a line break
